@@ -69,6 +69,21 @@ def len_eval(e: ast.expr, env: Dict[str, int], lens: Dict[str, int]) -> int:
     raise ordereval.Unsupported(e, "length algebra")
 
 
+def float_arith(node: ast.AST) -> List[ast.AST]:
+    """True divisions and float-producing calls inside node."""
+    out: List[ast.AST] = []
+    for n in A.walk_no_nested(node):
+        if isinstance(n, ast.BinOp) and isinstance(n.op, ast.Div):
+            out.append(n)
+        elif isinstance(n, ast.AugAssign) and isinstance(n.op, ast.Div):
+            out.append(n)
+        elif isinstance(n, ast.Call) and A.call_name(n) in ("float", "ceil", "floor", "round", "log2", "log", "sqrt", "pow", "trunc"):
+            out.append(n)
+        elif isinstance(n, ast.Constant) and isinstance(n.value, float):
+            out.append(n)
+    return out
+
+
 def starts_with(e: ast.expr, name: str) -> bool:
     """expression is `name`, bytes(name ...) or name + <anything> (append-only shape)."""
     e = A.strip_wrappers(e)
@@ -100,6 +115,12 @@ def rule_align(ctx) -> None:
     rets = A.returns_in(fn.node)
     if len(rets) != 1 or rets[0].value is None:
         raise AnalysisError("C20.align.formula: expected exactly one return expression in align()")
+    fl = float_arith(fn.node)
+    ctx.chk.decide(not fl, "C20.align.integer-arithmetic", fn.qual, "alignment is computed in exact integer arithmetic (no true division / float helpers)",
+                   f"float arithmetic in an integer helper: {norm(fl[0]) if fl else ''} (inexact beyond 2**53; the contract covers integers up to 2**512)",
+                   "integer operators only (//, %, *, +, -)", A.loc(MISC, fl[0]) if fl else "")
+    if fl:
+        return
     bad = None
     n = 0
     for a in range(1, 10):
@@ -262,28 +283,55 @@ def rule_swaps(ctx) -> None:
             raise AnalysisError(f"C20.swap32.perm: unrecognised form: {e}")
 
 
+def _flags_of(exprs) -> int:
+    fl = 0
+    for e in exprs:
+        t = norm(e)
+        if "IGNORECASE" in t or t.endswith("re.I") or "re.I |" in t:
+            fl |= 2
+    return fl
+
+
+def find_regex_call(ctx, fn):
+    """The single regex application in fn: re.match/fullmatch/search(pat, subject[, flags]) or <compiled>.match(subject)
+    where <compiled> is a local or module-level `re.compile(pat[, flags])`. Returns (call, pattern, subject, mode, flags)."""
+    prog = ctx.prog
+    hits = []
+    for c in A.calls_in(fn.node):
+        f = c.func
+        if not (isinstance(f, ast.Attribute) and f.attr in ("match", "fullmatch", "search")):
+            continue
+        if isinstance(f.value, ast.Name) and f.value.id == "re" and len(c.args) >= 2:
+            pat = prog.fold(c.args[0], fn.module)
+            hits.append((c, pat, c.args[1], f.attr, _flags_of([k.value for k in c.keywords if k.arg == "flags"] + c.args[2:3])))
+            continue
+        comp = None
+        if isinstance(f.value, ast.Name):
+            comp = A.single_def(fn.node, f.value.id)
+            if comp is None:
+                r = prog.resolve(fn.module, f.value.id)
+                if isinstance(r, tuple) and r[0] == "const":
+                    comp = r[2]
+        elif isinstance(f.value, ast.Call):
+            comp = f.value
+        if isinstance(comp, ast.Call) and A.dotted(comp.func) == "re.compile" and comp.args and c.args:
+            pat = prog.fold(comp.args[0], fn.module)
+            hits.append((c, pat, c.args[0], f.attr, _flags_of([k.value for k in comp.keywords if k.arg == "flags"] + comp.args[1:2])))
+    if len(hits) != 1:
+        raise AnalysisError(f"C20.value_to_int: expected exactly one regex application, found {len(hits)}")
+    if not isinstance(hits[0][1], str):
+        raise AnalysisError("C20.value_to_int: regex pattern does not fold to a string")
+    return hits[0]
+
+
 def rule_value_to_int(ctx) -> None:
     fn = ctx.func(MISC, "value_to_int")
     prog = ctx.prog
-    calls = [c for c in A.calls_in(fn.node) if A.dotted(c.func) in ("re.match", "re.fullmatch", "re.search")]
-    if len(calls) != 1:
-        raise AnalysisError("C20.value_to_int: expected exactly one re.match/fullmatch/search call")
-    call = calls[0]
-    pat = prog.fold(call.args[0], fn.module)
-    if not isinstance(pat, str):
-        raise AnalysisError("C20.value_to_int: regex pattern does not fold to a string")
-    subject = call.args[1]
+    call, pat, subject, mode, flags = find_regex_call(ctx, fn)
     subj_txt = norm(subject)
     lowered = ".lower()" in subj_txt
     stripped = ".strip()" in subj_txt
-    flags = 0
-    for k in call.keywords:
-        if k.arg == "flags" and "IGNORECASE" in norm(k.value):
-            flags |= 2
-    if len(call.args) > 2 and "IGNORECASE" in norm(call.args[2]):
-        flags |= 2
     alphabet = "0123456789abcdefgloux_ABFLUX +-.\n#"
-    mode = A.dotted(call.func).split(".")[1]
     try:
         actual = regexlang.Lang(pat, mode, flags, alphabet)
         # documented grammar on the (stripped) string; case-insensitive
@@ -572,10 +620,26 @@ def rule_change_endianness(ctx) -> None:
     ctx.chk.decide(bool(A.calls_in(fn.node, "reverse_bytes_in_longs")), "C20.change_endianness.longs", fn.qual, "longer inputs go through reverse_bytes_in_longs", "reverse_bytes_in_longs not used", "", A.loc(MISC, fn.node))
 
 
+INTEGER_HELPERS = [(MISC, "align"), (MISC, "align_block"), (MISC, "extend_block"), (MISC, "check_range"), (MISC, "swap16"), (MISC, "swap32"),
+                   (MISC, "value_to_int"), (MISC, "value_to_bytes"), (MISC, "split_data"), (MISC, "reverse_bytes_in_longs"), (MISC, "reverse_bits"),
+                   (SBMISC, "SecBootBlckSize.is_aligned"), (SBMISC, "SecBootBlckSize.align"), (SBMISC, "SecBootBlckSize.to_num_blocks"),
+                   (SBMISC, "BcdVersion3._check_number"), (SBMISC, "BcdVersion3._num_from_str")]
+
+
+def rule_integer_arith(ctx) -> None:
+    """Helpers whose contract ranges over unbounded integers must not go through floats."""
+    for rp, name in INTEGER_HELPERS:
+        fn = ctx.func(rp, name)
+        fl = float_arith(fn.node)
+        ctx.chk.decide(not fl, "C20.integer-arithmetic", fn.qual, "exact integer arithmetic only",
+                       f"float arithmetic: {norm(fl[0]) if fl else ''} (inexact beyond 2**53)", "integer operators only", A.loc(rp, fl[0]) if fl else "")
+
+
 def run(ctx) -> None:
     ctx.chk.explain("C20: order-type decision of comparison-only guards (check_range, align, extend_block, swap16/32, BCD, block-size helpers), "
                     "regex language equality for value_to_int (automata product), bit provenance for swap16, length algebra for the append-only padding helpers, "
                     "structural agreement of stride/window/modulus constants.")
+    ctx.rule(rule_integer_arith)
     ctx.rule(rule_check_range)
     ctx.rule(rule_align)
     ctx.rule(rule_align_block)
